@@ -127,6 +127,23 @@ Theorem C05_failure_race_unlocked_refuted : exists sent p q sched,
 Proof. exact scf_race_unlocked_lost_update. Qed.
 Print Assumptions C05_failure_race_unlocked_refuted.
 
+(* "Refused for cause (unsupported block demanding deletion)", for every block array of a received bundle:
+   the loop of Core.receive ([scf_rx_blocks]: index len-1 down to 0, the array shrinking in place under it
+   when a block is removed; [scf_rx_del] = it ends in bundleDeletion) refuses the bundle exactly when some
+   block of a type this node does not know carries the "delete bundle" flag - whatever flags (replicate,
+   report, delete bundle, remove block) the other blocks carry, known or unknown, and in whatever order. *)
+Theorem C05_unsupported_block_refusal : forall bl,
+  scf_rx_del bl = true <-> exists b, In b bl /\ bk_known b = false /\ scf_blk_has scf_fl_delete b = true.
+Proof. exact scf_rx_del_iff. Qed.
+Print Assumptions C05_unsupported_block_refusal.
+
+(* and a bundle that is not refused goes on with its blocks, in order, less the unsupported blocks flagged
+   "remove block": removing a block never makes the loop judge another block in its place *)
+Theorem C05_unsupported_block_removal : forall bl r,
+  scf_rx_blocks bl = Some r -> r = filter (fun b => bk_known b || negb (scf_blk_has scf_fl_remove b)) bl.
+Proof. exact scf_rx_blocks_kept. Qed.
+Print Assumptions C05_unsupported_block_removal.
+
 (* How [scf_alive] reads for the two kinds of bundles. *)
 Theorem C05_alive_timestamped : forall k b rx now,
   sb_ts b <> 0 -> sb_age b = None -> rx <= now -> now <= sb_ts b + sb_life b -> scf_alive k b rx now.
@@ -158,3 +175,10 @@ Proof. exact scf_ex_delivery. Qed.
    would have deleted that bundle *)
 Example C05_example_old_expiry_swept : (0 + sb_life scf_ex_b <? 8434540001300) = true.
 Proof. exact scf_ex_old_expiry_swept. Qed.
+
+(* an unsupported block flagged "remove block" directly in front of a supported block flagged "delete
+   bundle" (flags 5 = replicate + delete bundle, as senders put on hop count blocks): the bundle is kept *)
+Example C05_example_remove_then_known_delete :
+  scf_rx_blocks [ {| bk_known := false; bk_flags := 16 |}; {| bk_known := true; bk_flags := 5 |}; {| bk_known := true; bk_flags := 0 |} ]
+  = Some [ {| bk_known := true; bk_flags := 5 |}; {| bk_known := true; bk_flags := 0 |} ].
+Proof. exact scf_ex_rx_remove_then_known_delete. Qed.
